@@ -8,6 +8,7 @@ import (
 	"strconv"
 	"strings"
 	"sync"
+	"time"
 
 	"github.com/mattn/anko/env"
 
@@ -52,6 +53,12 @@ func NewHost() *Host {
 	h.Env.Define("gvar", func(a interface{}, rest ...interface{}) interface{} {
 		return list(append([]interface{}{a}, rest...)...)
 	})
+	h.Env.Define("gcall0", func(f func()) { f() })
+	h.Env.Define("geach", func(xs []interface{}, f func(interface{})) {
+		for _, x := range xs {
+			f(x)
+		}
+	})
 	h.Env.Define("gderef", func(p interface{}, b interface{}) interface{} {
 		v := reflect.ValueOf(p)
 		for v.IsValid() && (v.Kind() == reflect.Ptr || v.Kind() == reflect.Interface) && !v.IsNil() {
@@ -84,6 +91,14 @@ func NewHost() *Host {
 // Exec runs src in the host environment (non-debug mode).
 func (h *Host) Exec(src string) (interface{}, error) {
 	return ank.ExecCtx(context.Background(), h.Env, src)
+}
+
+// ExecTimeout is Exec under a deadline; timedOut reports that the deadline ended the run.
+func (h *Host) ExecTimeout(src string, d time.Duration) (v interface{}, err error, timedOut bool) {
+	ctx, cancel := context.WithTimeout(context.Background(), d)
+	defer cancel()
+	v, err = ank.ExecCtx(ctx, h.Env, src)
+	return v, err, ctx.Err() != nil && err != nil
 }
 
 // RenderGo renders a Go value produced by anko in the format of Render.
